@@ -348,7 +348,7 @@ func ReadLength(reader Asn1Reader) (*Length, error) {
 	if (lengthOrSizeOfLength & 0x80) == 0 {
 		length.SetUint64(uint64(lengthOrSizeOfLength))
 	} else {
-		sizeOfLength = int(lengthOrSizeOfLength & 0x0F)
+		sizeOfLength = int(lengthOrSizeOfLength & 0x7F)
 		length, err = ReadExpectedBigInt(reader, sizeOfLength)
 		if err != nil {
 			return nil, err
@@ -371,7 +371,7 @@ func PeekLength(reader Asn1Reader, offset int) (*Length, error) {
 		length.SetUint64(uint64(lengthOrSizeOfLength))
 	} else {
 		offset += 1
-		sizeOfLength = int(lengthOrSizeOfLength & 0x0F)
+		sizeOfLength = int(lengthOrSizeOfLength & 0x7F)
 		length, err = PeekExpectedBigInt(reader, sizeOfLength, offset)
 		if err != nil {
 			return nil, err
